@@ -46,7 +46,14 @@ def _expand(P, A, pattern):
     return P[idx], (None if A is None else A[np.ix_(idx, idx)])
 
 
-def job(label, n, Kc, via="evaluate", timeout_q=20.0, max_paths=4000, long_n=None):
+FIXED_AFFINITIES = {
+    # concrete affinities of non-float dtype (integer / boolean distance matrices are legal precomputed inputs)
+    "int": lambda n: np.abs(np.arange(n)[:, None] * 2 - np.arange(n)[None, :] * 2) + (np.arange(n)[:, None] != np.arange(n)[None, :]),
+    "bool": lambda n: ~np.eye(n, dtype=bool),
+}
+
+
+def job(label, n, Kc, via="evaluate", timeout_q=20.0, max_paths=4000, long_n=None, affinity=None):
     """long_n: the predictions have long_n rows drawn (by a fixed pattern) from n distinct symbolic rows, the affinity is the
     corresponding replicated block matrix: code whose behaviour depends on the LENGTH of the input (blocking, chunking)
     is executed with its real constants, at the price of only n distinct rows."""
@@ -61,6 +68,8 @@ def job(label, n, Kc, via="evaluate", timeout_q=20.0, max_paths=4000, long_n=Non
         gem, kind, ovo = cg.build(label)
         core.CTX.merge_sign = (kind == "tv")   # np.sign/np.abs as sgn atoms: one path, the solver splits the cases
         P, base, A = cg.sym_inputs(kind, n, Kc, eps=gem.epsilon)
+        if affinity:
+            A = FIXED_AFFINITIES[affinity](n)
         state.update(stub=stub, gem=gem, kind=kind, ovo=ovo)
         return _expand(P, A, pattern)
 
@@ -79,7 +88,7 @@ def job(label, n, Kc, via="evaluate", timeout_q=20.0, max_paths=4000, long_n=Non
     for out, pc, trace in ex.run(body, setup):
         res["paths"] += 1
         kind, ovo = state["kind"], state["ovo"]
-        tag = f"{label}/{via}/n{n}K{Kc}{'/N%d' % long_n if long_n else ''}/path{res['paths']}"
+        tag = f"{label}/{via}/n{n}K{Kc}{'/N%d' % long_n if long_n else ''}{'/' + affinity + '-affinity' if affinity else ''}/path{res['paths']}"
         if isinstance(out, PathError):
             # the engine could not execute this path: fall back to a concrete comparison at a witness of the path
             v, wmodel = harness.reachable(pc, timeout_s=10.0)
@@ -87,12 +96,17 @@ def job(label, n, Kc, via="evaluate", timeout_q=20.0, max_paths=4000, long_n=Non
             if v == "unsat":
                 continue
             if v == "sat":
-                rep = {"label": label, "via": via, "n": n, "K": Kc, "pattern": pattern, "model": {k: str(x) for k, x in wmodel.items() if k[0] in "pam"}}
-                try:
-                    bad = replay(rep)
-                except Exception as e:   # the real code raises on a valid input: that is a finding too
-                    bad = True
-                    rep["exception"] = f"{type(e).__name__}: {e}"
+                bad = False
+                # the witness of the path, then generic points of the same path (a witness is often degenerate: uniform predictions)
+                for cand in cg.candidate_models(wmodel, n, Kc, pc):
+                    rep = {"label": label, "via": via, "n": n, "K": Kc, "pattern": pattern, "affinity": affinity, "model": cand}
+                    try:
+                        bad = replay(rep)
+                    except Exception as e:   # the real code raises on a valid input: that is a finding too
+                        bad = True
+                        rep["exception"] = f"{type(e).__name__}: {e}"
+                    if bad:
+                        break
                 if bad:
                     res["violations"].append({"signature": f"{PROP}:{label.replace('reg:', '')}:score",
                                               "what": f"{label} via {via}: score differs from the documented definition at n={n},K={Kc} (concrete fallback)", "replay": rep})
@@ -121,14 +135,14 @@ def job(label, n, Kc, via="evaluate", timeout_q=20.0, max_paths=4000, long_n=Non
                                    "pc_size": len(pc), "verdict": o["verdict"], "how": o.get("how")})
         # engine validation at the witness point: symbolic term vs the real implementation
         if wmodel is not None:
-            ok = _validate(label, via, n, Kc, kind, ovo, impl, wmodel, orc, pattern)
+            ok = _validate(label, via, n, Kc, kind, ovo, impl, wmodel, orc, pattern, affinity)
             if ok is not None:
                 res["validated"] += 1
                 if not ok:
                     res["obligations"].append({"name": tag + "/engine-validation", "verdict": "inconclusive", "how": "symbolic term and real run disagree"})
         for cand in (o, dres):
             if cand["verdict"] == "sat" and cand.get("model"):
-                rep = {"label": label, "via": via, "n": n, "K": Kc, "pattern": pattern, "model": {k: str(v) for k, v in cand["model"].items() if k[0] in "pam"}}
+                rep = {"label": label, "via": via, "n": n, "K": Kc, "pattern": pattern, "affinity": affinity, "model": {k: str(v) for k, v in cand["model"].items() if k[0] in "pam"}}
                 if replay(rep):
                     res["violations"].append({"signature": f"{PROP}:{label.replace('reg:', '')}:{'score' if cand is o else 'undefined'}",
                                               "what": f"{label} via {via}: score differs from the documented definition at n={n},K={Kc}",
@@ -144,12 +158,15 @@ def _strip(o):
     return {k: v for k, v in o.items() if k != "model"}
 
 
-def _validate(label, via, n, Kc, kind, ovo, impl, model, orc=None, pattern=None):
+def _validate(label, via, n, Kc, kind, ovo, impl, model, orc=None, pattern=None, affinity=None):
     """run the REAL gemclus at the witness point and compare with the symbolic term evaluated there."""
     if kind == "w":
         return None  # the symbolic term contains the transport stub: not evaluable; wiring is checked by the query
     try:
-        P, A = _expand(*cg.concrete_inputs(model, n, Kc, kind), pattern)
+        P, A = cg.concrete_inputs(model, n, Kc, kind)
+        if affinity:
+            A = FIXED_AFFINITIES[affinity](n)
+        P, A = _expand(P, A, pattern)
         gem, _, _ = cg.build(label, symbolic=False)
         real = gem(P, A) if via == "call" else gem.evaluate(P, A)
         env = harness.model_env(model)
@@ -171,7 +188,7 @@ def replay(rep, verbose=False):
     P, A = cg.concrete_inputs(model, n, Kc, kind)
     if P.min() <= cg.EPS or P.max() >= 1 - cg.EPS:
         return False
-    for Ac in cg.affinity_candidates(kind, n, A):
+    for Ac in ([FIXED_AFFINITIES[rep["affinity"]](n)] if rep.get("affinity") else cg.affinity_candidates(kind, n, A)):
         Pl, Ac = _expand(P, Ac, rep.get("pattern"))
         real = float(gem(Pl, Ac) if rep.get("via") == "call" else gem.evaluate(Pl, Ac))
         ref = cg.float_oracle(kind, ovo, Pl, Ac)
@@ -197,6 +214,12 @@ def jobs(tier):
         if not lab.startswith("reg:"):
             out.append({"name": f"{lab}/call/n2K2", "target": "checks.c01:job",
                         "kwargs": dict(label=lab, n=2, Kc=2, via="call", timeout_q=20.0), "timeout": 150})
+    for lab in cg.CLASSES:
+        kind = cg.CLASSES[lab][2:][0]
+        if kind in ("w", "mmd"):
+            for aff in ("int", "bool"):
+                out.append({"name": f"{lab}/n3K2/{aff}-affinity", "target": "checks.c01:job",
+                            "kwargs": dict(label=lab, n=3, Kc=2, via="evaluate", timeout_q=20.0, affinity=aff), "timeout": 150 if tier == "quick" else 1500})
     for lab in cg.CLASSES:
         kind = cg.CLASSES[lab][2:][0]
         if kind == "w":
